@@ -144,6 +144,12 @@ def build_obligation(inst):
         pin, pout = type_of(prog)
         lf = leaves_of(prog)
         leaves = {name: mk.array(name, leaf_shape(l), l[4]) for name, l in lf.items()}
+        if mode == "code_const":      # CONCRETE tensor constants of mixed sign (so that they can be printed), symbolic inputs
+            crng = np.random.RandomState(len(str(prog)))
+            leaves = {name: np.round(crng.randn(*leaf_shape(l)) * 3, 2) for name, l in lf.items()}
+            for name, a in leaves.items():      # 1-d constants as [+, -, -, ...]: str() of such an array is a valid but different expression
+                if a.ndim == 1:
+                    leaves[name] = np.abs(a) * np.array([1.0] + [-1.0] * (a.size - 1)) + np.array([0.5] + [-0.5] * (a.size - 1))
         data = OrderedDict()
         env = {}
         kvals = [None]
@@ -162,7 +168,19 @@ def build_obligation(inst):
             dat = OrderedDict((k, dat[k]) for k in pin)
             exp = denote(prog, e2, leaves)
             try:
-                if mode in ("compile", "code", "pickle", "kwargs", "compile_normalize", "code_normalize"):
+                if mode in ("code_vnames", "code_const"):
+                    with lazy:
+                        expr = build(prog, leaves)
+                    ren = OrderedDict((k, "v%d" % i) for i, k in enumerate(reversed(list(expr.inputs)))) if mode == "code_vnames" else {}
+                    if ren:       # inputs named like the printed program's own locals
+                        with lazy:
+                            expr = expr(**{k: funsor.Variable(v, expr.inputs[k]) for k, v in ren.items()})
+                    program = compile_funsor(expr)
+                    ns = {}
+                    exec(program.as_code("prog_fn"), ns)
+                    got = ns["prog_fn"](**{ren.get(k, k): v for k, v in dat.items()})
+                    pairs.append((program(**{ren.get(k, k): v for k, v in dat.items()}), exp))
+                elif mode in ("compile", "code", "pickle", "kwargs", "compile_normalize", "code_normalize"):
                     from funsor.interpretations import normalize
                     with (normalize if mode.endswith("_normalize") else lazy):
                         expr = build(prog, leaves)
@@ -299,7 +317,7 @@ def instances(tier, seed):
         if rng.random() < 0.2:
             out.append(("p", p, "kwargs"))
     # parametrised ops with an earlier parameter at its default and a later one not (printing / pickling of op params)
-    from lang.prog import outreduce, var, binary, num, type_of
+    from lang.prog import outreduce, var, binary, num, type_of, leaves_of
     m = var("m", VARS["m"])
     for opn in ("sum", "amax", "amin", "prod", "mean", "var", "std", "logsumexp"):
         for axis, kd in ((None, True), (0, True), (1, False), (-1, True), (None, False)):
@@ -342,6 +360,14 @@ def instances(tier, seed):
                 out.append(("p", e, "code_normalize"))
     for p in gen_programs(rng, n // 2, 3 if tier == "quick" else 4, False):
         out.append(("p", p, "compile_normalize"))
+    for p in gen_programs(rng, n // 3, 3 if tier == "quick" else 4, False):
+        out.append(("p", p, "code_vnames"))
+    for p in gen_programs(rng, n, 2 if tier == "quick" else 3, True):
+        if any(nm in ("c1", "c2") for nm in leaves_of(p)):
+            out.append(("p", p, "code_const"))
+    c1 = _leaf("c1", (), (2,), "real")
+    for p in (binary("mul", var("x", VARS["x"]), c1), unary("exp", binary("sub", c1, var("x", VARS["x"]))), binary("matmul", var("m", VARS["m"]), c1)):
+        out.append(("p", p, "code_const"))
     for p in gen_programs(rng, n, 3 if tier == "quick" else 4, False):      # number constants only: printable / picklable
         out.append(("p", p, "compile"))
         out.append(("p", p, "code"))
@@ -359,7 +385,7 @@ def main():
     chk.extra_cov = dict(programs=len({o.get("prog") for o in chk.outcomes if o["status"] == "ok"}), disagreements_checked=sum(o.get("cells", 0) for o in chk.outcomes))
     chk.bounds = dict(inputs={k: str(v) for k, v in VARS.items()}, depth="<= 3 | 4 (+ up to 2 extra steps)", constants="numbers and (for compile/trace) tensor constants",
                       routes=["compile_funsor(e)(**data) for e built under lazy and under normalize (flat Contractions of arity 2-9|18)", "exec(program.as_code())", "pickle round trip", "trace_function(f, data)", "missing / unexpected kwargs rejected"])
-    chk.assumptions = ["as_code and pickle are exercised on programs whose constants are numbers (tensor constants print as a numpy repr and the symbolic cells are not picklable)",
+    chk.assumptions = ["pickle is exercised on programs whose constants are numbers (symbolic cells are not picklable); as_code additionally on programs with CONCRETE tensor constants (code_const) and on programs whose inputs are named like the printed locals (code_vnames)",
                        "integer inputs are enumerated (Bint[2]), array inputs and tensor constants are symbolic"]
     chk.floor = 100
     chk.finish(rule="seeded expressions in the compiler's fragment (unary, binary incl. non-commutative ops and matmul, output reductions, getitem/getslice, reshape, shared sub-expressions, constants); one instance per (expression, route); distinct = printed expression + route",
